@@ -36,6 +36,23 @@ U16Bounds == {0, 9, 10, 99, 100, 999, 1000, 9999, 10000, 65529, 65530, 65534, 65
 \* every type with a mnemonic, and values without one next to them / at the ends
 TypeValues == {p[2] : p \in RtypeMnemonics} \cup {0, 54, 66, 98, 110, 127, 129, 248, 260, 999, 1000, 9999, 10000, 32767, 32770, 65279, 65280, 65534, 65535}
 
+\* names at the length limits (PresentLimits.tla: wire lengths 253 .. 256 in
+\* several label partitions; 256 is outside ValidAbs: the reader must refuse
+\* it and the constructors must not build it), alone and reaching the limit
+\* only with the origin's labels behind them
+Thorough == MaxStr >= 3
+LimitNames == {PL!ShapeName(ls) : ls \in PL!LimitShapes(Thorough)}
+              \cup {PL!ShapeName(ls) \o RelOrigin : ls \in PL!UnderShapes(Len(WireName(RelOrigin)), Thorough)}
+U4(a, b, c, d) == <<a, b, c, d>>
+One32 == U4(0, 0, 0, 1)
+\* 32-bit fields: the ends of the range, both sides of 2^31, changes of the digit count
+U32Bounds == {U4(0, 0, 0, 0), One32, U4(0, 0, 0, 9), U4(0, 0, 0, 10), U4(0, 1, 134, 159), U4(0, 1, 134, 160),
+              U4(59, 154, 201, 255), U4(59, 154, 202, 0), U4(127, 255, 255, 255), U4(128, 0, 0, 0), U4(128, 0, 0, 1),
+              U4(255, 255, 255, 254), U4(255, 255, 255, 255)}
+Soa(m, rn, s, a, b, c, d) == [t |-> 6, mname |-> m, rname |-> rn, serial |-> s, refresh |-> a, retry |-> b, expire |-> c, minimum |-> d]
+Rrsig(cv, al, lb, ot, ex, inc, tg, sg, sig) == [t |-> 46, covered |-> cv, alg |-> al, labels |-> lb, ottl |-> ot, exp |-> ex, inc |-> inc,
+                                                tag |-> tg, signer |-> sg, sig |-> sig]
+Sig0 == <<1, 2, 3, 250>>
 \* one group per field kind
 Group(g) ==
   CASE g = "owner1" -> {Rec(<<l, Lex>>, 1, 3600, TxtX) : l \in NonEmpty(MaxStr)}
@@ -68,14 +85,33 @@ Group(g) ==
                                 f \in {0, 1, 255}, i \in {0, 10, 65530, 65535}}
                        \cup {Rec(<<Lex>>, 1, 5, [t |-> 51, alg |-> a, fl |-> 0, it |-> 1, salt |-> sl]) :
                                 a \in {0, 255}, sl \in {<<>>, <<0>>, <<255>>, <<45>>, <<10, 171, 205, 239>>}}
-Groups == {"owner1", "owner2", "txt", "hinfo", "name", "mx", "generic", "ctt", "caa", "bitmap", "ints"}
+    [] g = "limits" -> {Rec(n, 1, 5, TxtX) : n \in LimitNames}
+                       \cup {Rec(<<Lex>>, 1, 5, [t |-> ty, name |-> n]) : ty \in (IF Thorough THEN {2, 39} ELSE {2}), n \in LimitNames}
+                       \cup {Rec(<<Lex>>, 1, 5, [t |-> 15, pref |-> 10, name |-> n]) : n \in LimitNames}
+                       \cup {Rec(<<Lex>>, 1, 5, Soa(NEx, n, One32, One32, One32, One32, One32)) : n \in LimitNames}
+                       \cup {Rec(<<Lex>>, 1, 5, Rrsig(1, 8, 1, One32, One32, One32, 7, n, Sig0)) : n \in LimitNames}
+                       \cup (IF ~Thorough THEN {} ELSE
+                             {Rec(<<Lex>>, 1, 5, [t |-> 47, name |-> n, types |-> {1, 46}]) : n \in LimitNames}
+                             \cup {Rec(<<Lex>>, 1, 5, Soa(n, NEx, One32, One32, One32, One32, One32)) : n \in LimitNames}
+                             \cup {Rec(n, 1, 5, [t |-> 2, name |-> n]) : n \in LimitNames})
+    [] g = "u32"    -> {Rec(<<Lex>>, 1, 5, Soa(NEx, NEx, v, One32, One32, One32, One32)) : v \in U32Bounds}
+                       \cup {Rec(<<Lex>>, 1, 5, Soa(NEx, NEx, One32, v, One32, One32, One32)) : v \in U32Bounds}
+                       \cup {Rec(<<Lex>>, 1, 5, Soa(NEx, NEx, One32, One32, v, One32, One32)) : v \in U32Bounds}
+                       \cup {Rec(<<Lex>>, 1, 5, Soa(NEx, NEx, One32, One32, One32, v, One32)) : v \in U32Bounds}
+                       \cup {Rec(<<Lex>>, 1, 5, Soa(NEx, NEx, One32, One32, One32, One32, v)) : v \in U32Bounds}
+                       \cup {Rec(<<Lex>>, 1, 5, Soa(NEx, NEx, v, v, v, v, v)) : v \in {U4(128, 0, 0, 0), U4(255, 255, 255, 255)}}
+                       \cup {Rec(<<Lex>>, 1, 5, Rrsig(1, 8, 1, v, One32, One32, 7, NEx, Sig0)) : v \in U32Bounds}
+                       \cup {Rec(<<Lex>>, 1, 5, Rrsig(46, 255, 0, One32, v, One32, 0, <<>>, Sig0)) : v \in U32Bounds}
+                       \cup {Rec(<<Lex>>, 1, 5, Rrsig(65535, 0, 255, One32, One32, v, 65535, NEx, <<255>>)) : v \in U32Bounds}
+LimGroups == {"limits", "u32"}
+Groups == {"limits", "u32", "owner1", "owner2", "txt", "hinfo", "name", "mx", "generic", "ctt", "caa", "bitmap", "ints"}
 
 Init == /\ grp \in Groups /\ r \in Group(grp) /\ kind \in Kinds /\ origin \in Origins
 Next == UNCHANGED vars
 Spec == Init /\ [][Next]_vars
 
 \* a record the constructors would not build is not part of the domain of the law
-InDomain == AllAdmitted(r.rd, Dev \cap FieldDevs)
+InDomain == RecAdmitted(r, Dev \cap FieldDevs)
 \* the property on the composed specification (writer deviations Dev)
 ReadEqualsWritten == InDomain => RoundTrip(r, kind, origin, Dev \cap WriterDevs)
 \* ... through the token route (record data as a token list, IterScanner)
@@ -89,6 +125,12 @@ FieldTextsReadEqualWritten ==
 \* ... and for the restricted-alphabet token fields on their own (everything
 \* the constructors admit today reads back, except where a field deviation says so)
 FieldsReadEqualWritten == FieldsRoundTrip(r.rd, Dev \cap FieldDevs)
+\* ... and for the spelling relative to the origin (names at the limits: the
+\* reader's length check must count the origin's labels, no more, no less)
+RelOn == grp = "limits" /\ origin = WireName(RelOrigin)
+RelativeReadsEqual == (RelOn /\ InDomain) => ReadBackX(WText(r, "relative", {}), origin, {}) = Expected(r)
+\* what is outside the domain because of a name is refused by the reader
+TooLongRefused == (grp = "limits" /\ ~NamesAdmitted(r)) => ReadBackX(WText(r, kind, {}), origin, {}) = ErrOutcome
 
 \* Routes: further ways to build the record (Record::new / From tuples /
 \* set_class / RecordHeader::into_record / Record::parse), its data (wire /
@@ -117,12 +159,16 @@ Emit ==
               toks |-> RdTokens(r.rd, kind, {}),
               ltexts |-> [i \in 1..Len(r.owner) |-> [l |-> r.owner[i], t |-> WLabel(r.owner[i], {})]],
               ctexts |-> [i \in 1..Len(strs) |-> [s |-> strs[i], t |-> WUnquoted(strs[i])]]]
+             @@ (IF RelOn /\ RecAdmitted(r, {}) THEN [rel |-> WText(r, "relative", {})] ELSE <<>>)
+      relx == IF RelOn THEN [rel |-> IF ReadBackX(WText(r, "relative", {}), origin, {}) = Expected(r) THEN "eq" ELSE "neq"] ELSE <<>>
+      \* a name outside ValidAbs: the text is refused, the constructors do not build the record
+      rawx == [raw |-> ReadBackX(ideal, origin, {}), built |-> FALSE]
       tokRead(dv) == ReadTokens(r.rd.t, RdTokens(r.rd, kind, {}), dv)
       tokOut(dv) == IF tokRead(dv) = [rd |-> RdWire(r.rd)] THEN "eq" ELSE tokRead(dv)
       \* tokm: the generic form through the routes that take the "\#" marker
       \* themselves (UnknownRecordData::scan, base16::decode_vec on the hex words)
       rest(dv) == [spec |-> "eq", tok |-> tokOut(dv), tokm |-> tokOut({}), lbl |-> "eq", cs |-> "eq"]
-      expd == [lib |-> "eq"] @@ rest({})
+      expd == [lib |-> "eq"] @@ rest({}) @@ relx
       \* what the reader makes of the text the code writes today
       o0 == ReadBack(code, origin, {})
       o1 == ReadBack(code, origin, ReaderDevs)
@@ -130,7 +176,8 @@ Emit ==
       na == [lib |-> "na", spec |-> "na", tok |-> "na", tokm |-> "na", lbl |-> "na", cs |-> "na"]
       \* a record the constructors admit today although they should not: what the code makes of it
       oc == ReadBackX(code, origin, {})
-  IN IF ~AllAdmitted(r.rd, {}) THEN
+  IN IF ~NamesAdmitted(r) THEN PrintT("CASE " \o ToJson([in |-> inp @@ [adm |-> FALSE, raw |-> ideal], exp |-> na @@ rawx]))
+     ELSE IF ~AllAdmitted(r.rd, {}) THEN
         (IF AllAdmitted(r.rd, FieldDevs) /\ oc # Unmodelled /\ oc # Expected(r)
          THEN PrintT("CASE " \o ToJson([in |-> inp @@ [adm |-> FALSE], exp |-> na,
                    dev |-> [x \in {"D_caa_empty_tag"} |-> [lib |-> oc, spec |-> oc] @@ rest({})]]))
